@@ -128,6 +128,23 @@ def _watchdog(it, limit_s, name):
             raise RuntimeError(f"no result from the worker pool within {limit_s}s in check {name} (worker died?)")
 
 
+def _worker_init():
+    """Harness plumbing: Av._CACHE_LOCK is a multiprocessing.Lock created at import time, so the
+    forked pool workers would all share ONE OS semaphore and serialise every Av query across the
+    16 processes (independent processes in real use do not share it).  Each worker gets its own
+    lock of the same kind; nothing else of the code under test is touched."""
+    try:
+        import multiprocessing.synchronize as ms
+
+        from permuta.perm_sets.permset import Av
+
+        lock = getattr(Av, "_CACHE_LOCK", None)
+        if isinstance(lock, ms.Lock):
+            Av._CACHE_LOCK = mp.Lock()
+    except Exception:  # noqa: BLE001 - never let plumbing break a check
+        pass
+
+
 def _chunks(iterable, size):
     it = iter(iterable)
     while True:
@@ -165,7 +182,7 @@ class Ctx:
     def pool(self):
         if self._pool is None:
             ctx = mp.get_context("fork")
-            self._pool = ctx.Pool(NCPU)
+            self._pool = ctx.Pool(NCPU, initializer=_worker_init)
         return self._pool
 
     def close(self):
